@@ -104,8 +104,15 @@ def generate(rs: int, tier: str, index: int) -> dict:
     other = {}
     if ch.chance(0.3):  # str/repr must denote the polynomial whatever else is configured
         other = {"retain_names": ch.chance(0.3), "retain_coefficients": ch.chance(0.5)}
+    cnp = ch.sub("npprint")
+    np_print = None
+    if not sympy_case and cnp.chance(0.2):
+        # numpy's own print settings (process-wide): none of these may change what the text denotes
+        np_print = {k: v for k, v in {"linewidth": cnp.choice([20, 40, 75, 200]), "precision": cnp.choice([2, 4, 8, 17]), "sign": cnp.choice(["-", "+", " "]),
+                                      "floatmode": cnp.choice(["maxprec", "fixed", "unique", "maxprec_equal"])}.items()
+                    if cnp.chance(0.5)} or {"linewidth": 30}
     abort = ch.below(100000) if ch.chance(0.2) else None  # an earlier print of the same array, with other settings, was interrupted part-way
-    step = {"id": 0, "k": "sympy" if sympy_case else "text", "p": lit, "display": display, "other_options": other, "all_orders": ch.chance(0.3), "abort_first": abort,
+    step = {"id": 0, "k": "sympy" if sympy_case else "text", "p": lit, "display": display, "other_options": other, "all_orders": ch.chance(0.3), "abort_first": abort, "np_print": np_print,
             "reach": ch.weighted([(5, "direct"), (2, "nested"), (2, "set_inside")])}
     pols = POLICIES if tier == "thorough" else ["stable", ch.choice(POLICIES[1:])]
     return {"property": ID, "run_seed": rs, "tier": tier, "prelude": prelude.gen_prelude(core.Chooser(rs, "prelude")), "policies": pols, "steps": [step]}
@@ -320,7 +327,8 @@ class Runner:
                 with seams.Env(core.H(self.rs, pol), sort=pol) as env, reach_display(step.get("reach", "direct"), display, step.get("other_options")):
                     env.begin_step(sid)
                     try:
-                        s_text, r_text = str(p), repr(p)
+                        with numpy.printoptions(**(step.get("np_print") or {})):
+                            s_text, r_text = str(p), repr(p)
                     except Exception as exc:  # noqa: BLE001
                         if not core.through_numpoly(exc, NUMPOLY_DIR):
                             raise
@@ -470,6 +478,8 @@ def simplify(plan: dict):
         yield dict(plan, steps=[dict(step, other_options={})])
     if step.get("abort_first") is not None:
         yield dict(plan, steps=[dict(step, abort_first=None)])
+    if step.get("np_print"):
+        yield dict(plan, steps=[dict(step, np_print=None)])
     if step.get("reach") != "direct":
         yield dict(plan, steps=[dict(step, reach="direct")])
     if step["display"]["display_exponent"] != "**" or step["display"]["display_multiply"] != "*":
